@@ -51,7 +51,7 @@ pub type Names = std::collections::HashMap<String, usize>;
 /// index of the first token that may be an operand name
 pub fn refs_from(toks: &[&str]) -> usize {
     match toks[0] {
-        "derivs" | "tryderivs" | "show" | "reset" => 1,
+        "derivs" | "tryderivs" | "show" | "reset" | "debug" | "debugd" => 1,
         _ => 2,
     }
 }
@@ -1142,6 +1142,91 @@ pub fn gen_matrix(g: &mut Gen, prefix: &str, head: &str, ty: &str, kind: Kind) {
             }
         }
     }
+    // Sum over every mix of constants (c) and variables (v) in every order, up to four terms
+    for n in 0..=4usize {
+        for mask in 0..(1usize << n) {
+            let pattern: String = (0..n).map(|j| if mask >> j & 1 == 1 { 'v' } else { 'c' }).collect();
+            // distinct records: variables r0, r2, constants r1, r3
+            let terms: Vec<String> = (0..n)
+                .map(|j| format!("r{}", if mask >> j & 1 == 1 { [0, 2][j % 2] } else { [1, 3][j % 2] }))
+                .collect();
+            g.count(&format!("{}.matrix.sum.{}", prefix, if n == 0 { "empty".to_string() } else { pattern }));
+            g.op(format!("sum r{} {}", k, if n == 0 { "-".to_string() } else { terms.join(",") }));
+            g.op(format!("derivs r{} via=vec", k));
+            k += 1;
+        }
+    }
+    // the non-operator API on a computed result whose number (21), derivative (7) and position
+    // all differ: x * 7 with x = 3
+    g.op(format!("muln r{} r0 7 via=ref_ref", k));
+    let y = k;
+    k += 1;
+    for via in ["clone", "clone_from"] {
+        g.count(&format!("{}.matrix.clone.{}", prefix, via));
+        g.op(format!("clone r{} r{} via={}", k, y, via));
+        g.op(format!("derivs r{} via=vec", k));
+        g.op(format!("cmp eq r{} r{} via=ref", k, y));
+        k += 1;
+    }
+    for op in CMP_OPS {
+        for via in CMP_FORMS {
+            g.count(&format!("{}.matrix.cmp.{}.{}", prefix, op, via));
+            g.op(format!("cmp {} r{} r2 via={}", op, y, via));
+            g.op(format!("cmp {} r3 r{} via={}", op, y, via));
+        }
+    }
+    g.count(&format!("{}.matrix.show", prefix));
+    g.op(format!("show r{}", y));
+    g.op("show r1".into());
+    g.count(&format!("{}.matrix.debug", prefix));
+    g.op(format!("debug r{}", y));
+    g.op("debug r1".into());
+    for via in ["at", "index", "vec", "into"] {
+        g.count(&format!("{}.matrix.derivs.{}", prefix, via));
+        g.op(format!("derivs r{} via={}", y, via));
+    }
+    if head == "@ tape" {
+        g.count(&format!("{}.matrix.tryderivs", prefix));
+        g.op(format!("tryderivs r{}", y));
+        g.op("tryderivs r1".into());
+        g.count(&format!("{}.matrix.debugd", prefix));
+        g.op(format!("debugd r{}", y));
+        g.op("debugd r1".into());
+    }
+    for via in ["constant", "zero", "one", "from_usize"] {
+        g.count(&format!("{}.matrix.const.{}", prefix, via));
+        let v = match via { "zero" => "0", "one" => "1", _ => "6" };
+        g.op(format!("const r{} {} via={}", k, v, via));
+        g.op(format!("add r{} r{} r{} via=ref_ref", k + 1, k, y));
+        k += 2;
+    }
+    if real {
+        g.count(&format!("{}.matrix.const.pi", prefix));
+        g.op(format!("const r{} {} via=pi", k, PI_FP));
+        g.op(format!("add r{} r{} r{} via=ref_ref", k + 1, k, y));
+        k += 2;
+    }
+    for via in ["record", "list"] {
+        g.count(&format!("{}.matrix.var.{}", prefix, via));
+        g.op(format!("var r{} 11 t=0 via={}", k, via));
+        g.op(format!("mul r{} r{} r{} via=ref_ref", k + 1, k, y));
+        g.op(format!("derivs r{} via=vec", k + 1));
+        k += 2;
+    }
+    for f in UNARY_FNS {
+        g.count(&format!("{}.matrix.unary.{}", prefix, f));
+        g.op(format!("unary r{} r{} fn={}", k, y, f));
+        g.op(format!("derivs r{} via=vec", k));
+        k += 1;
+    }
+    for f in BINARY_FNS {
+        for (a, b, pairing) in [(y, 2usize, "var_var"), (y, 3, "var_const"), (1, y, "const_var"), (1, 3, "const_const")] {
+            g.count(&format!("{}.matrix.binary.{}.{}", prefix, f, pairing));
+            g.op(format!("binary r{} r{} r{} fn={}", k, a, b, f));
+            g.op(format!("derivs r{} via=vec", k));
+            k += 1;
+        }
+    }
 }
 
 // ---------------------------------------------------------------------------------------------
@@ -1464,7 +1549,19 @@ where
             catch(|| op4!(via, a, b, SwappedOperations::div_swapped))
         }
         "neg" => { let a = rec(toks[2]); catch(|| op2!(via, a, Neg::neg)) }
-        "clone" => { let a = rec(toks[2]); catch(|| Clone::clone(a)) }
+        "clone" => {
+            let a = rec(toks[2]);
+            // `clone_from`: into an unrelated existing record (all three fields are overwritten)
+            let dest = c.recs.first().cloned().unwrap_or_else(|| Record::constant(T::zero()));
+            catch(|| match via {
+                "clone_from" => {
+                    let mut d = dest;
+                    Clone::clone_from(&mut d, a);
+                    d
+                }
+                _ => Clone::clone(a),
+            })
+        }
         "sum" => {
             let items: Vec<Rc<T>> = split_comma(toks[2]).iter().map(|s| rec(s).clone()).collect();
             catch(|| items.into_iter().sum::<Rc<T>>())
@@ -1560,6 +1657,13 @@ where
                 Err(k) => panic_str(k),
             })
         }
+        "debug" => {
+            let a = &c.recs[c.names[toks[1]]];
+            Some(match catch(|| format!("dbg ## {:?}", a)) {
+                Ok(s) => s,
+                Err(k) => panic_str(k),
+            })
+        }
         _ => None,
     }
 }
@@ -1571,6 +1675,12 @@ where
 {
     let via = opt_arg("via", toks).unwrap_or("vec");
     let r = &c.recs[c.names[toks[1]]];
+    if toks[0] == "debugd" {
+        return match catch(|| format!("dbg ## {:?}", r.derivatives())) {
+            Ok(s) => s,
+            Err(k) => panic_str(k),
+        };
+    }
     let try_ = toks[0] == "tryderivs";
     let d = if try_ {
         match catch(|| r.try_derivatives()) {
@@ -1592,6 +1702,7 @@ where
                 match via {
                     "at" => d.at(x),
                     "index" => d[x].clone(),
+                    "into" => { let v: Vec<T> = d.clone().into(); v[x.index].clone() }
                     _ => Vec::from(d.clone())[x.index].clone(),
                 }
             })
@@ -1666,7 +1777,7 @@ impl Runner {
                 if let Some(ans) = observe_line(c, toks) {
                     return ans;
                 }
-                if toks[0] == "derivs" || toks[0] == "tryderivs" {
+                if toks[0] == "derivs" || toks[0] == "tryderivs" || toks[0] == "debugd" {
                     return derivs_line::<Fp>(c, toks);
                 }
                 let r = real_instr(c, toks).or_else(|| arith_instr::<Fp>(c, toks, 0));
@@ -1682,7 +1793,7 @@ impl Runner {
                 if let Some(ans) = observe_line(c, toks) {
                     return ans;
                 }
-                if toks[0] == "derivs" || toks[0] == "tryderivs" {
+                if toks[0] == "derivs" || toks[0] == "tryderivs" || toks[0] == "debugd" {
                     return derivs_line::<Rat>(c, toks);
                 }
                 match arith_instr::<Rat>(c, toks, 0) {
